@@ -123,12 +123,15 @@ def main(tier):
         cfgs = [(4, 8, 0, (0,), 0), (4, 8, 0, (0,), 1), (4, 12, 5, (1, 0), 0), (3, 9, 4, (0, 1), 1), (5, 11, 0, (0,), 0), (4, 15, 5, (2, 0), 0), (4, 11, 5, (1,), 0), (3, 13, 4, (0, 2), 1)]      # incl. empty buckets below the last bunch
     else:
         cfgs = [(4, N, 5, b, c) for N in (8, 9, 10, 11, 12, 16) for b in ((0,), (0, 1), (1, 0)) if max(b) * 5 + 4 <= N for c in (0, 1)] + [(5, 20, 6, (0, 2), 0), (6, 13, 0, (0,), 1)]
-    jobs = [(job_spectrum, c) for c in cfgs] + [(job_spectrum, tuple(c) + (True,)) for c in cfgs if not c[4]] + [(job_parseval, (n,)) for n in ((3, 4) if tier == 'quick' else (2, 3, 4))]
+    import c18
+    jobs = [(c18.job_history, (4, 8, 0, (0,), 2, 0)), (c18.job_history, (3, 12, 4, (0, 2), 1, 1))]      # the spectrum is that of the current profile and the current cutoff, whatever was computed before (other profiles, the other cutoff setting)
+    jobs += [(job_spectrum, c) for c in cfgs] + [(job_spectrum, tuple(c) + (True,)) for c in cfgs if not c[4]] + [(job_parseval, (n,)) for n in ((3, 4) if tier == 'quick' else (2, 3, 4))]
     chk.bounds = {'configurations (n, N, spacing, buckets, cutoff)': cfgs, 'Parseval': 'N = 4 with FFTW\'s documented r2c/c2r written out exactly (rational twiddles), n = 2..4, single bunch in bucket 0, all profiles and complex impedances'}
     chk.assumptions = ['structure obligations: fftwf_execute uninterpreted (whole input buffer)', 'Parseval for N > 4 is not decided (irrational twiddles); it is a property of the DFT pair, the code-level content (which bins, which factor, which cells) is decided for all listed N',
                        'exp(): 0 < exp(t), and exp(t) <= 1 for t <= 0 (one fresh variable per call)', 'floats as reals; NaN/inf outside the claim']
     chk.stubs = ['fftwf_execute: uninterpreted / exact DFT at N=4', 'expf: fresh variable with monotonicity axioms', 'pow(x,2) = x*x']
-    chk.replayer = replayer(bld)
+    _r7 = replayer(bld); _r18 = c18.replayer(bld)
+    chk.replayer = lambda path, c: (_r18 if c.get('replay') == 'history' else _r7)(path, c)
     chk.add(run_jobs(jobs, budget=600))
     chk.finish()
 
